@@ -739,7 +739,6 @@ derived_ctx!(DCtx2, [i: Val<B3>, h: f32, z: Val<Z0>, g: IpAddr, f: bool, e: Roto
 derived_ctx!(DCtx3, #[repr(C)] [f: bool, c: Val<X16>, a: u8, e: RotoString, d: u16, z: Val<Z0>, b: u64, i: Val<B3>, g: IpAddr, h: f32], "repr-C", sc_dctx3);
 
 include!("../c05/positions.in");
-include!("../c05/sites.rs");
 
 // ------------------------------------------------------------------ case list
 
@@ -753,6 +752,7 @@ fn case<T: BT>(scen: &str, run: Run) -> Case {
 }
 
 include!("../c05/types.in");
+include!("../c05/sites.rs");
 
 /// Class representatives of the read-site / private-copy scenarios: one type per
 /// boundary type family (the seven scalar kinds, by-reference plain data, clone
@@ -1314,6 +1314,7 @@ fn main() {
             let mut rep = Report::default();
             facts(&mut rep, &tier);
             roundtrip_model(&mut rep, seed.parse().unwrap(), if tier == "thorough" { 200 } else { 24 });
+            provenance(&mut rep);
             let total = cases().len() as u64;
             let names: Vec<String> = cases().into_iter().map(|c| c.name).collect();
             // crash-isolated batches; a tree on which many cases die is not explored to the end
